@@ -407,6 +407,41 @@ def compare_kept(inp, out, flags, eps_units):
     return probs
 
 
+def bitmap_colour_problems(out):
+    """a coarse picture check of the added bitmaps: when the topmost layer of a colour glyph is an opaque solid colour
+    other than black, that colour must be among the opaque pixels of the glyph's bitmap (F28: var(--colorN, c) fills
+    rendered black)"""
+    from PIL import Image
+
+    probs = []
+    if "CBDT" not in out or "COLR" not in out:
+        return probs
+    for sd in out["CBDT"].strikeData:
+        for name, g in sd.items():
+            pic, p1 = picture.colr_picture(out, name, require_opaque_palette=False)
+            flat = picture.flatten(pic)
+            layers = [it for it, _ in flat]
+            if p1 or not layers:
+                continue
+            top = layers[-1][2]
+            if top[0] != "solid" or top[1] in ("current", (0, 0, 0)) or abs(top[2] - 1.0) > 0.01 or any(abs(a_ - 1.0) > 0.01 for a_, _ in flat[-1][1]):
+                continue  # translucent (itself or through a group above it): the colour seen is a blend
+            # the layer must be big enough inside the glyph's cell (the bitmap is cut to advance x ascender..descender)
+            x0, y0, x1, y1 = picture.polys_bbox(layers[-1][1])
+            adv = out["hmtx"][name][0]
+            asc, desc, upem = out["OS/2"].sTypoAscender, out["OS/2"].sTypoDescender, out["head"].unitsPerEm
+            w_in, h_in = min(x1, adv) - max(x0, 0), min(y1, asc) - max(y0, desc)
+            scale = 128 / (asc - desc)
+            if w_in * scale < 6 or h_in * scale < 6 or len(layers[-1][1]) != 1:
+                continue
+            im = Image.open(io.BytesIO(g.imageData)).convert("RGBA")
+            px = im.get_flattened_data() if hasattr(im, "get_flattened_data") else im.getdata()
+            seen = any(p_[3] > 200 and max(abs(p_[k] - top[1][k]) for k in range(3)) <= 48 for p_ in px)
+            if not seen:
+                probs.append((name, f"bitmap of {name}: the topmost layer is opaque {top[1]}, no opaque pixel of the bitmap comes near that colour"))
+    return probs
+
+
 def compare_stripped(kept, stripped_data):
     """the font written without --keep_glyph_names = the kept-names font minus the names"""
     probs = []
@@ -543,6 +578,20 @@ def run_e2e(report, n, rng, jobs=6):
             lit, tinfo = fontcheck.abstract(out)
             lits.append(lit)
             metas.append(dict(case, tables=tinfo))
+        if not probs and "--bitmaps" in flags:
+            bp = bitmap_colour_problems(out)
+            report.hist("e2e.bitmap_colours", "wrong" if bp else "ok")
+            if bp:
+                # F28's class: the glyph's own SVG document spells fills as palette variables
+                docs_ = svg_docs(out) if "SVG " in out else []
+
+                def uses_palette_variables(name):
+                    gid = out.getGlyphID(name)
+                    return any(d_[1] <= gid <= d_[2] and "var(--color" in d_[0] for d_ in docs_)
+
+                known_class = all(uses_palette_variables(n_) for n_, _ in bp)
+                if report_failure(report, f"e2e_bitmap_{i}", dict(case, problems=[m_ for _, m_ in bp[:4]]), "F28-bitmaps-of-palette-variables-black" if known_class else None):
+                    return
         if not probs and strip:
             if res.get("rc2") != 0 or res.get("stripped") is None:
                 probs.append("maximum_color without --keep_glyph_names failed")
